@@ -65,6 +65,10 @@ IMPORTS = ("from typedpy import (Structure, ImmutableStructure, Number, Integer,
 
 _THE_OBJECT = object()
 
+# Further declaration kinds registered by a check (t -> {"field_src": f -> str, "gen_valid": (rnd, f, classes, depth) ->
+# reified, optional "emit_field": f -> Gallina, optional "falsy": f -> [reified]}); the kinds above are untouched.
+EXT = {}
+
 
 def unreify(r, ctx=None):
     """reified value -> Python object.  ctx: dict class name -> class (for structs)."""
@@ -106,6 +110,9 @@ def unreify(r, ctx=None):
             return b"xy"
         if r[1] == "object":
             return _THE_OBJECT      # one object: equal reified values must be equal (identical) Python values
+        if r[1] in ("date", "time", "datetime"):
+            import datetime
+            return getattr(datetime, r[1]).fromisoformat(r[2])
         raise ValueError(r)
     raise ValueError(r)
 
@@ -135,6 +142,8 @@ def py_src(r):
     if t == "struct":
         return "%s(%s)" % (r[1], ", ".join("%s=%s" % (k, py_src(v)) for k, v in r[2]))
     if t == "other":
+        if r[1] in ("date", "time", "datetime"):
+            return "datetime.%s.fromisoformat(%r)" % (r[1], r[2])
         return {"float": "float(%r)" % r[2], "complex": "complex(1, 2)", "bytes": "b'xy'",
                 "object": "object()"}.get(r[1], "object()")
     raise ValueError(r)
@@ -220,6 +229,8 @@ def field_src(f):
         return f["cls"]
     if t == "raw":          # declaration given as source text (not emitted to Coq), e.g. "Tuple[Inner]"
         return f["src"]
+    if t in EXT:
+        return EXT[t]["field_src"](f)
     raise ValueError(f)
 
 
@@ -294,6 +305,8 @@ def emit_field(f):
         return "(%s %s)" % (c, E.lst([emit_field(g) for g in f["fs"]]))
     if t == "ref":
         return "(FClassRef %s)" % E.pstr(f["cls"])
+    if t in EXT and "emit_field" in EXT[t]:
+        return EXT[t]["emit_field"](f)
     raise ValueError(f)
 
 
@@ -599,6 +612,8 @@ def gen_valid(rnd, f, classes=None, depth=0):
         if inst:
             return rnd.choice(inst)
         return ("none",)
+    if t in EXT:
+        return EXT[t]["gen_valid"](rnd, f, classes, depth)
     raise ValueError(f)
 
 
